@@ -342,6 +342,9 @@ func (a *Act) blockIn(b *ssa.BasicBlock) *State {
 		}
 		c := tr.freshConst(a.prefix+phi.Name()+"_"+phi.Comment, a.sortOf(phi.Type()))
 		a.vals[phi] = c
+		if et, ok := phiEntry[phi]; ok && et != "" {
+			tr.firstIterHints = append(tr.firstIterHints, Implies(hs.reach, Eq(c, et)))
+		}
 		a.assumeWF(hs, phi.Type(), c, 1)
 	}
 	mods, all := a.loopMods(li)
